@@ -10,7 +10,8 @@ RULE = ("Each case = one generated program (1-6 reliable channels - in one case 
         "(iid/burst loss, outages, SACK-only / retransmission-only loss, duplication x2/x3, delay jitter up to 5 s) until "
         "heal, then drained. The uid-history oracle is evaluated at every message event. A case is non-trivial when the "
         "wire tap saw >=1 dropped DATA datagram, >=1 out-of-order DATA arrival or duplicated datagram, >=1 retransmitted "
-        "TSN and >=1 multi-fragment message was delivered; distinct = distinct fault-decision/arrival-order fingerprint.")
+        "TSN and >=1 multi-fragment message was delivered; distinct = distinct fault-decision/arrival-order fingerprint."
+        ' One case in eight runs a create/send/close program of C13 (channels that come and go, stream ids re-used by later channels) under the same delivery oracle.')
 ASSUMPTIONS = [
     "DTLS transport replaced by a duck-typed stand-in whose send never suspends (UDP candidate pair); relay mode (send yields) is a labelled extra configuration",
     "time.time inside aiortc.rtcsctptransport replaced by the virtual clock of the loop",
